@@ -286,6 +286,21 @@ let do_sess tran role proto rcvmax streamhex cuts flags ctlhex self peer =
         if shown <> 1 && (single || role = "d") then print_endline "ctl skipped" else print_endline "ctl ok=1"
       end
 
+(* stall: a peer sends part of its handshake and goes silent; the negotiation aio of tcp / ipc expires (10 s, on the
+   virtual clock), socket:// has no such timeout; afterwards a well-behaved connection is served *)
+let do_stall tran proto parthex self peer =
+  if tran = "ws" then print_endline "ctl ok=1"
+  else begin
+    let cfg = { cc_rx = { r_kind = kind_of tran; r_rcvmax = N0; r_allocmax = allocmax };
+                cc_self = n_of_string self; cc_expect = n_of_string peer; cc_proto = proto_rx_of proto; cc_pipe = N0 } in
+    match conn_feed_all cfg (conn_init cfg) [bytes_of_hex parthex] with
+    | None -> print_endline "stall panic"
+    | Some (st, _) ->
+        let st' = if tran = "sfd" then st else fst (conn_eof st (n_of_int 5)) in
+        Printf.printf "stall closed=%d\n" (match st' with CClosed -> 1 | _ -> 0);
+        print_endline "ctl ok=1"
+  end
+
 (* ------------------------------------------------------------------ UDP *)
 let le16_bytes (v : int) = [n_of_int (v land 255); n_of_int ((v lsr 8) land 255)]
 let do_udp dgrams self peer =
@@ -351,6 +366,7 @@ let () =
        | "inproc" :: mode :: msgs :: _ -> do_inproc mode msgs
        | "sess" :: tran :: role :: proto :: rcvmax :: st :: cuts :: fl :: ctl :: _nexp :: self :: peer :: _ ->
            do_sess tran role proto rcvmax st cuts fl ctl self peer
+       | "stall" :: tran :: proto :: part :: _adv :: _ctl :: self :: peer :: _ -> do_stall tran proto part self peer
        | "wshs" :: _ -> print_endline "ctl ok=1"
        | "udp" :: _proto :: dgrams :: _nexp :: self :: peer :: _ -> do_udp dgrams self peer
        | "wsrx" :: role :: rcvmax :: st :: cuts :: _nexp :: fl :: _ -> do_wsrx role rcvmax st cuts fl
